@@ -364,8 +364,11 @@ class StatusProgressStorage(ProgressStorage):
 
         # Work around an issue with mypy not treating TypedDicts as MutableMappings.
         essence_dict = cast(dict[Any, Any], essence)
-        dicts.remove(essence_dict, self.field)
-        dicts.remove(essence_dict, self.touch_field)
+        for field in (self.field, self.touch_field):
+            try:
+                dicts.remove(essence_dict, field)
+            except TypeError:
+                pass  # the field is hidden behind a non-mapping value: nothing of ours is there.
 
         self.remove_empty_stanzas(essence)
         return essence
